@@ -24,7 +24,7 @@ HISTORY_OPS = ['copy', 'copy_deep', 'copy_module', 'pickle', 'hold_refs', 'hold_
                'print_options', 'dtype_spelling', 'other_byte_order', 'logging_debug', 'warnings_error']
 CREATES_HANDLE = ('copy', 'copy_deep', 'copy_module', 'pickle', 'dtype_spelling', 'other_byte_order')
 NONGEOM_EDITS = ['add_var', 'drop_var', 'alter_var', 'slice_time', 'global_attr', 'data_var_attr', 'one_time_step', 'scalar_coord']
-GEOM_EDITS = ['value', 'dtype_same_bytes', 'shape_same_bytes', 'rename', 'attr_add', 'attr_change', 'attr_remove', 'convention', 'attr_array']
+GEOM_EDITS = ['value', 'dtype_same_bytes', 'shape_same_bytes', 'rename', 'attr_add', 'attr_change', 'attr_remove', 'convention', 'attr_array', 'attr_empty']
 
 
 class KeySim:
@@ -475,6 +475,14 @@ def _key_lifetime(ctx, plan, scratch):
                         var.encoding['_FillValue'] = var.encoding['missing_value']
                     if '_FillValue' not in var.attrs and '_FillValue' not in var.encoding:
                         var.encoding['_FillValue'] = None
+                def _unstorable(v_):
+                    return v_ is None or (hasattr(v_, '__len__') and len(v_) == 0)
+                if any(_unstorable(v_) for var in out_ds.variables.values() for v_ in var.attrs.values()):
+                    # None / empty attribute values (the `attr_empty` edit) are legal in memory but xarray cannot store them:
+                    # no file, no new handle -- not an emsarray failure
+                    ctx.emit('skipped', k=k, op=kind)
+                    handles.append({'ds': None, 'cls': None})
+                    continue
                 out_ds.to_netcdf(p)
                 pcls = ('persist%d' % n_persist[0], 0)
                 ctx.emit('file', path=os.path.basename(p), cls=pcls)
@@ -609,6 +617,17 @@ def _key_lifetime(ctx, plan, scratch):
                     # ordinary and underscore-prefixed names alike: every attribute of a geometry variable is geometry
                     aname = ['comment', 'note', '_CoordinateAxisType', '_ChunkSizes', 'valid_min'][arg % 5]
                     new[name].attrs[aname] = f'v{arg}' if aname != 'valid_min' else float(arg)
+                elif kind == 'attr_empty':
+                    # attributes whose value is empty or None (legal in memory, never survive a file): still attributes.
+                    # Added, or (if one is there from an earlier edit) changed to another empty value.
+                    empties = [None, (), numpy.array([], dtype='int32'), '', numpy.array([], dtype='float64'), b'']
+                    aname = ['valid_range', 'comment', 'flag_values'][arg % 3]
+                    if aname in new[name].attrs:
+                        edit = 'attr_change'
+                        new[name].attrs[aname] = 'no longer empty'
+                    else:
+                        edit = 'attr_add'
+                        new[name].attrs[aname] = empties[(arg // 3) % len(empties)]
                 elif kind == 'attr_array':
                     # an array-valued attribute: added, or (if present) one element changed in its 11th significant digit
                     cur_ = new[name].attrs.get('valid_range')
